@@ -1,3 +1,4 @@
+import PenneModel.CF.Io
 import PenneModel.Sexp
 import PenneModel.Skel
 import PenneModel.Scope.Labels
@@ -203,6 +204,7 @@ def handle (op payload : String) : String :=
       | none => "bad-request"
     | _ => "bad-request"
   | "C12" => c12 payload
+  | "cf" => CF.answer payload
   | "cycle" =>
     match Sexp.parse payload with
     | some (.list [.atom "graph", .list (.atom "ids" :: ids), .list (.atom "edges" :: es)]) =>
